@@ -110,6 +110,12 @@ fn call_end(id: u32, blocks_before: u64, outcome: CallOutcome) {
         _ => 3,
     };
     let s = ev("ret", id as i64, code);
+    {
+        let world = w();
+        if code == 2 && world.ops[id as usize].obj.map_or(false, |o| world.objs[o].panic_injected) && !world.ops[id as usize].injects_panic {
+            world.cover.calls_on_panicked += 1;
+        }
+    }
     let r = &mut w().ops[id as usize];
     r.ret = Some(s);
     r.outcome = outcome;
@@ -1055,5 +1061,7 @@ pub fn exec_op(op: &Op) {
         }
         OpKind::SweepWait => rt::kernel::sweep_wait(),
         OpKind::SweepDone => rt::kernel::sweep_done(),
+        OpKind::Mark => rt::kernel::sweep_mark(),
+        OpKind::WaitGate { g } => gate_block_on(*g),
     }
 }
